@@ -372,21 +372,21 @@ pub struct Binary;
 const NAMES: [&str; 6] = ["plain.slice", "with space.slice", "quo\"te.slice", "back\\slash.slice", "ünï 😀.slice", "tab\there.slice"];
 impl Family for Binary {
     fn name(&self) -> String {
-        "binary/6 file names x 11 program shapes (clean, warnings, errors, notes, missing file, duplicate file, directory, two files, a generator that cannot be started, one that exits 1, a failing generator next to warnings) x 12 configurations through the real slicec binary".into()
+        "binary/6 file names x 13 program shapes (clean, warnings, errors, notes, missing file, duplicate file, directory, two files, a generator that cannot be started, one that exits 1, a failing generator next to warnings, a generator that writes to its stderr, a healthy generator whose reply carries a diagnostic) x 12 configurations through the real slicec binary".into()
     }
     fn len(&self) -> u64 {
-        6 * 11 * 12
+        6 * 13 * 12
     }
     fn hang_secs(&self) -> f64 {
         60.0
     }
     fn describe(&self, idx: u64) -> Value {
-        json!({"file_name": NAMES[(idx % 6) as usize], "shape": (idx / 6) % 11, "argv_options": config(idx / 66).argv()[1..].to_vec()})
+        json!({"file_name": NAMES[(idx % 6) as usize], "shape": (idx / 6) % 13, "argv_options": config(idx / 78).argv()[1..].to_vec()})
     }
     fn run(&self, idx: u64) -> CaseOut {
         let name = NAMES[(idx % 6) as usize];
-        let shape = (idx / 6) % 11;
-        let cfg = config(idx / 66);
+        let shape = (idx / 6) % 13;
+        let cfg = config(idx / 78);
         let mut out = CaseOut::new(hash_str(&format!("c14bin{idx}")));
         out.validated = 1;
         out.nontrivial = true;
@@ -394,7 +394,7 @@ impl Family for Binary {
         let text = match shape {
             0 => "module M\nstruct S {}\n".to_string(),
             1 | 10 => "module M\n[deprecated(\"q\\\"uote\")] struct D {}\nstruct U { d: D }\n/// {@link Nope}\nstruct L {}\n".to_string(),
-            8 | 9 => "module M\nstruct S {}\n".to_string(),
+            8 | 9 | 11 | 12 => "module M\nstruct S {}\n".to_string(),
             2 => "module M\ncompact struct E {}\nstruct F { a: Nope }\n".to_string(),
             3 => "module M\nstruct A { b: B }\nstruct B { a: A }\n".to_string(),
             _ => "module M\n\t[deprecated] struct D {}\n\tstruct U { d: D? }\n".to_string(),
@@ -422,6 +422,17 @@ impl Family for Binary {
                 sc.gens.push(Gen { name: "ok".into(), install: Install::Script(Script(vec![Step::ReadAll, Step::Stdout(encode_reply(&[], &[])), Step::Exit(0)])) });
                 sc.gens.push(Gen { name: "failing".into(), install: Install::Script(Script(vec![Step::ReadAll, Step::Exit(1)])) });
                 argv.extend(["-G".to_string(), "{gen0}".into(), "-G".into(), "{gen1}".into()]);
+            }
+            11 => {
+                use crate::proc::{Gen, Install, Script, Step};
+                sc.gens.push(Gen { name: "talks".into(), install: Install::Script(Script(vec![Step::ReadAll, Step::Stderr(b"generator says \"oops\"\n".to_vec()), Step::Exit(0)])) });
+                argv.extend(["-G".to_string(), "{gen0}".into()]);
+            }
+            12 => {
+                use crate::proc::{encode_reply, Gen, Install, RDiag, Script, Step};
+                let d = RDiag { level: 1, message: "a warning from the generator".into(), source: None };
+                sc.gens.push(Gen { name: "warns".into(), install: Install::Script(Script(vec![Step::ReadAll, Step::Stdout(encode_reply(&[], &[d])), Step::Exit(0)])) });
+                argv.extend(["-G".to_string(), "{gen0}".into()]);
             }
             _ => {}
         }
@@ -459,10 +470,15 @@ impl Family for Binary {
                             other => out.violate("c14/binary/json/severity", format!("severity {other:?}\n{}", input())),
                         }
                     }
+                    _ if shape == 11 && line.starts_with("generator says") => {
+                        out.violate("c14/binary/json/stderr-text-of-a-generator-on-the-diagnostic-stream", format!("line {line:?}\n{}", input()))
+                    }
                     _ => out.violate("c14/binary/json/line-does-not-parse", format!("line {line:?}\n{}", input())),
                 }
             }
-            if !stdout.trim().is_empty() {
+            if shape == 12 && stdout.trim() == "a warning from the generator" {
+                out.violate("c14/binary/json/diagnostic-of-a-generator-printed-as-plain-text-on-stdout", input());
+            } else if !stdout.trim().is_empty() {
                 // the summary is a human-format feature
                 out.violate("c14/binary/json/summary-on-stdout", input());
             }
@@ -485,7 +501,7 @@ impl Family for Binary {
             out.violate("c14/binary/exit-status", format!("exit status {code} with {errors} error(s) emitted\n{}", input()));
         }
         // expected presence per shape
-        let exp_err = matches!(shape, 2 | 3 | 4 | 6 | 7 | 8 | 9 | 10);
+        let exp_err = matches!(shape, 2 | 3 | 4 | 6 | 7 | 8 | 9 | 10 | 11);
         if exp_err != (errors > 0) {
             out.violate("c14/binary/expected-errors", format!("shape {shape}: errors expected {exp_err}, {errors} emitted\n{}", input()));
         }
